@@ -4,21 +4,31 @@ CONF = dict(
     cmd='c03',
     props='Props/C03.v',
     glue='Extract/GlueC03.v',
-    rule=('histories of 2..7 calls of the real client.MeasureClockOffsetIP (65 %) / client.MeasureClockOffsetSCION (35 %, one SCIONClient, empty path) with one '
-          'IPClient/SCIONClient (interleaved mode on in 7 of 8 histories: up to 3 exchange attempts per call) against a scripted conformant peer on loopback '
+    rule=('c03.hist: histories of 2..7 calls of the real client.MeasureClockOffsetIP (65 %; of these 15 % over the IPv6 loopback address, 17 % with NTS: the server is the one the scripted '
+          'key exchange names, one cookie per key exchange, so every lost reply forces a new key exchange that may name the other server) / client.MeasureClockOffsetSCION (35 %, one SCIONClient, '
+          'empty path) with one IPClient/SCIONClient (interleaved mode on in 7 of 8 histories: up to 3 exchange attempts per call) against a scripted conformant peer on loopback '
           '(two references = two servers, each keeping (receive, transmit) records like core/server): the peer\'s clock is real time + theta, theta per exchange: 0, +-ns..+-60 years, '
           'at the 2036 era boundary, constant / jittering / stepping / unrelated between exchanges; per attempt the script delays either direction (0..4 ms), drops the request or '
-          'the reply, duplicates the reply or the request (two handlings, replies in order or reversed), makes the server forget its records (basic reply to an interleaved request), '
-          'puts junk / a foreign datagram / a stale reply (an earlier reply of the run, or the genuine one with its origin field off by one unit, swapped, zero, = the request\'s origin) '
-          'ahead of the reply, sends only stale replies, bad metadata (stratum 0/16, mode, LI, version), or transmit < receive; between calls: nothing, a short pause, '
+          'the reply, releases the reply only when the NEXT request arrives (to the socket of the request it answers), duplicates the reply or the request (two handlings, replies in order or reversed), '
+          'makes the server forget its records (basic reply to an interleaved request), puts junk (too short / longer than the client\'s buffer, i.e. truncation flags / from another address or AS, in SCION with a '
+          'receive-timestamp option) or a stale reply (an earlier reply of the run, or the genuine one with its origin field off by one unit, swapped, zero, = the request\'s origin) '
+          'ahead of the reply, sends only stale replies, bad metadata (stratum 0/16, mode, LI, version), or transmit < receive; a lost reply is a real deadline (150 ms) in 1 of 5 cases and otherwise two junk datagrams that end the attempt, '
+          'so that no verdict depends on a wall-clock margin; between calls: nothing, a short pause, '
           'ResetInterleavedMode, a change of reference, a real 3 s pause, a client clock reading exactly 3 s + {-2..2 ns, +-1 us, +-1 s} after the previous transmit stamp (window edge), '
-          'or a client clock reading after the 2036 era rollover. Recorded per attempt: request fields on the wire, the four timestamps handed to the measurements.Filter, offset and delay '
-          'the client logged, receive time, client state (reflection), result of every call. SCION histories: replies without / with a receive-timestamp option (type 253) in software or raw-hardware form, whose value is then the receive time (an input of the model). A history is non-trivial when it contains an accepted interleaved response after a '
-          'loss / duplicate / stale / junk / refused event; distinct = distinct (kind, input). Further kinds per run: c03.fallback (8: one basic exchange, IP and SCION, with hardware timestamping requested on the loopback interface so that every kernel timestamp read fails and the clock fallback is used; same oracle; known finding), '
-          'c03.multi (2: MeasureClockOffsetSCION with two clients and two paths, one next hop answering garbage at once, the other delayed: the round must report the one successful measurement), c03.kstamps (per worker: at most 5 % of the ordinary attempts may use the clock fallback)'),
+          'or a client clock reading after the 2036 era rollover. Recorded per attempt: the server the request reached and its fields on the wire, its source port, the four timestamps handed to the measurements.Filter, offset and delay '
+          'as logged by the client (when its log records carry them; recomputed with ntp.ClockOffset/RoundTripDelay otherwise), receive time, client state (reflection), result of every call. SCION histories: replies without / with a '
+          'receive-timestamp option (type 253) in software or raw-hardware form, whose value is then the receive time (an input of the model), and with a hop-by-hop option of the same type naming another time (must be ignored). '
+          'An exchange whose client stamps were clock readings (kernel timestamp not readable) is judged by the relaxed clause of the oracle. A history the harness cannot record (peer and client disagree on the number of requests, a timeout '
+          'although a decisive datagram was sent) is run again up to 3 times and counted. A history is non-trivial when it contains an accepted interleaved response after a '
+          'loss / duplicate / stale / junk / refused event; distinct = distinct (kind, input). Further kinds per run: c03.fallback (8: one basic exchange, IP and SCION, with hardware timestamping requested on the loopback interface so that every '
+          'kernel timestamp read fails and the clock fallback is used; strict oracle; known finding), c03.nofilter (96: one basic exchange of a client WITHOUT measurement filter and with a histogram, IP / IPv6 / SCION: the offset returned must be '
+          'explained by a transmit stamp inside the bracket of the exchange, the histogram holds its delay), c03.multi (6 = 2 x 3 rounds of MeasureClockOffsetSCION with two clients and two paths: a straggler whose reply is released after the round\'s context '
+          'ended, a next hop answering garbage, a failure collected before the success; every round must report its one completed measurement; the peer waits for the events it needs, no races), c03.kstamps (per worker: clock-fallback rate, share of '
+          'histories not recordable, share of consecutive requests sent from the same source port)'),
     assumptions=['the bound theorem covers exchanges whose t0 / t3 are the kernel transmit / receive timestamps (departure of the request, arrival of the reply); the clock fallback (cTxTime1 = timebase.Now() after the 1 ms poll of ReadTXTimestamp when no kernel transmit timestamp can be read, 1-2 ms late) is outside it and is a recorded finding (KNOWN_FINDINGS id clock-fallback-t0), reproduced every run by case kind c03.fallback under the same oracle',
-                 'fresh_socket_per_request: only replies to copies of the current request reach its socket (the client opens a new socket per request); re-addressed copies of the reply to an earlier request with IDENTICAL timestamp fields (retry after a timeout) are outside the theorem',
-                 'client_clock_strict: a reply arrives after its request was stamped, within one NTP era, so the two stamps differ as Time64 values',
+                 'fresh_socket_per_request: only replies to copies of the current request reach its socket (the client opens a new socket per request; tied to the code by observing the source ports of consecutive requests and by late replies addressed to the old socket); re-addressed copies of the reply to an earlier request with IDENTICAL timestamp fields (retry after a timeout) are outside the theorem',
+                 'client_clock_strict: a reply arrives after its request was stamped and less than 2^32 s later (the period of Time64 values; the exchange may straddle an NTP era rollover), so the two stamps differ as Time64 values',
+                 'SCION: the receive time t3 is taken from the UNAUTHENTICATED end-to-end receive-timestamp option (type 253) of the response when present; in the world model it is the input crx subject to arrival_ok, i.e. for SCION the bound holds for honest forwarders only (an on-path element that rewrites the option moves t3 at will); the harness checks that only the option of the accepted packet is used',
                  'the server never reuses a receive stamp for this client (C06 proves this for the records it keeps); causality: a request copy is received after it was sent, a reply copy arrives after it was stamped; theta constant within one exchange, arbitrary across exchanges',
                  'numeric bound: all stamps within 2^31 s of the client clock reading, durations below 2^61 ns; time.Time as unbounded nanoseconds'],
     trusted=['modelled, not verified: the kernel (SO_TIMESTAMPING transmit/receive stamps are inputs of the model), Go net/slog/context, gopacket + scionproto slayers (SCION framing of the scripted peer and of the client)',
@@ -32,9 +42,9 @@ CONF = dict(
                 'MeasureClockOffsetSCION, ntp.ClockOffset/RoundTripDelay/TimeFromTime64/Time64FromTime by replaying generated histories on the real code every run and comparing request '
                 'fields, selected timestamps, offset, delay, state and call results; the C03 oracle (four stamps inside the bracket of ONE scripted exchange, |offset - theta| <= rtd/2 + 3 ns) '
                 'is evaluated on the implementation\'s observations'),
-    level_note=('Trusted: Coq kernel, hand-written model validated by the correspondence run, extraction, harness (scripted peer, recorders). Kernel timestamps are inputs; authentication '
-                '(NTS, DRKey) is off in these runs (C05/C10/C13). No axioms.'),
-    explanation='oracle clauses: the four stamps handed to the filter lie in the bracket of one scripted exchange (t1,t2 = its server stamps up to 1 ns, t0 between the client clock reading before the send and the peer\'s receipt, t3 between the peer\'s transmit stamp and the end of the attempt); 2|offset - theta| <= rtd + 6 ns with rtd recomputed from the stamps; a reported offset without an accepted exchange is rejected',
+    level_note=('Trusted: Coq kernel, hand-written model validated by the correspondence run, extraction, harness (scripted peer, recorders). Kernel timestamps are inputs; the SCION receive-timestamp option is an unauthenticated input (honest forwarders assumed). NTS histories exercise the rewrite of the server address from the key-exchange data, not the '
+                'authentication itself (C05/C10); DRKey authentication is off (C13). No axioms.'),
+    explanation='oracle clauses: the four stamps handed to the filter lie in the bracket of one scripted exchange (t1,t2 = its server stamps up to 1 ns, t0 between the client clock reading before the send and the peer\'s receipt, t3 between the peer\'s transmit stamp and the end of the attempt); 2|offset - theta| <= rtd + 6 ns with rtd recomputed from the stamps; for an exchange whose client stamps were clock readings: t0, t3 inside the attempt and |offset - theta| <= length of the attempt; a reported offset without an accepted exchange is rejected; c03.multi: a round with a completed measurement must report it; c03.nofilter: the transmit stamp that explains the returned offset lies in the bracket; c03.kstamps: at most half of the exchanges use the clock fallback and at most half of the consecutive requests share a source port; correspondence clauses: at most 5 % of the histories not recordable, the receive time used is not earlier than the departure of the first datagram of the attempt',
     timeout_quick=900, timeout_thorough=3000,
-    min_cases={'c03.fallback': 2, 'c03.hist': 768, 'c03.kstamps': 4, 'c03.multi': 1},
+    min_cases={'c03.fallback': 2, 'c03.hist': 768, 'c03.kstamps': 4, 'c03.multi': 1, 'c03.nofilter': 28},
 )
